@@ -58,10 +58,12 @@ Theorem C18_slave_yields : forall e r,
   e_master e = false -> e_ph e = WaitEOT r ->
   react e (AChar ENQ) = push (count_yield (set_ph e (RecvWait (CtxYield r)))) (OCh EOT).
 Proof. exact slave_yields. Qed.
+Print Assumptions C18_slave_yields.
 
 Theorem C18_master_ignores_enq : forall e r,
   e_master e = true -> e_ph e = WaitEOT r -> react e (AChar ENQ) = e.
 Proof. exact master_ignores_enq. Qed.
+Print Assumptions C18_master_ignores_enq.
 
 (** After taking the master's block the slave's postponed send restarts as a new request (retry
     counter 0), with its own block and queue untouched. *)
@@ -94,17 +96,20 @@ Print Assumptions C18_skeleton.
 (** ** Byte level: which transmissions the receive procedure ACKs and which it NAKs. *)
 Theorem C18_recv_intact : forall b, wf_block b -> recv_bytes (append_block b) = Some b.
 Proof. exact recv_intact. Qed.
+Print Assumptions C18_recv_intact.
 Theorem C18_recv_corrupt : forall b i v,
   wf_block b -> (i < length (wire_rest b))%nat -> byte_ok v -> v <> nth i (wire_rest b) 0%Z ->
   recv_bytes (wire_len b :: replace_nth i v (wire_rest b)) = None.
 Proof. exact recv_corrupt. Qed.
+Print Assumptions C18_recv_corrupt.
 Theorem C18_recv_truncated : forall b n,
   wf_block b -> (n < length (append_block b))%nat -> recv_bytes (firstn n (append_block b)) = None.
 Proof. exact recv_truncated. Qed.
+Print Assumptions C18_recv_truncated.
 Theorem C18_recv_length_up : forall b lb',
   wf_block b -> (lb' > wire_len b \/ lb' < 10)%Z -> recv_bytes (lb' :: wire_rest b) = None.
 Proof. exact recv_length_up. Qed.
-Print Assumptions C18_recv_corrupt.
+Print Assumptions C18_recv_length_up.
 
 (** ** The receiver of the line model IS the C17 assembler, abstracted: for every encoding of
     abstract blocks as real blocks whose message header is well-formed, addressed to us and
@@ -136,6 +141,7 @@ Theorem C18_nak_to_ack_refuted :
     let a' := react (sa s) (AChar ACK) in
     e_done a' = [7] /\ e_deliv (sb s) = [].
 Proof. exact nak_to_ack_refuted. Qed.
+Print Assumptions C18_nak_to_ack_refuted.
 
 (** ** A defect of the current code, excluded by the model's terminal [Down]: the line engine
     keeps answering the line after its own send failed, while the closing generation no longer
@@ -154,6 +160,7 @@ Theorem C18_served_after_failure_refuted :
     e_out a1 = [OCh ENQ] /\ e_out b1 = [OCh EOT] /\ e_out a2 = [OBlk (blk 7 0 1)] /\
     e_out b2 = [OCh ACK] /\ e_done a3 = [7] /\ e_deliv b2 = [].
 Proof. exact served_after_failure_refuted. Qed.
+Print Assumptions C18_served_after_failure_refuted.
 
 Theorem C18_bridge_line_chars :
   ch_code ENQ = Some Gen.secs1.enq /\ ch_code EOT = Some Gen.secs1.eot /\
